@@ -11,7 +11,7 @@ schema("Adapter", name=Str)
 AdapterT = ObjT("Adapter")
 
 _single = dict(astart=Int, astop=Int, rstart=Int, rstop=Int, score=Int, errors=Int, sequence=Str,
-               adapter=AdapterT, __cls__=Int)
+               adapter=AdapterT, __cls__=Int, length=Int)
 schema("SingleMatch", **_single)
 SingleMatchT = ObjT("SingleMatch")
 schema("Match", front_match=OptT(SingleMatchT), back_match=OptT(SingleMatchT), **_single)
@@ -40,6 +40,8 @@ def match_spec(cx):
         n = m.fields["sequence"].n
         c = [0 <= m.fields["astart"], m.fields["astart"] <= m.fields["astop"],
              0 <= m.fields["rstart"], m.fields["rstart"] <= m.fields["rstop"], m.fields["rstop"] <= n, n >= 0]
+        if "length" in m.fields:
+            c.append(m.fields["length"] == m.fields["astop"] - m.fields["astart"])     # set by SingleMatch.__init__
         if tag is not None:
             c.append(m.fields["__cls__"] == tag)
         return z3.And(*c)
